@@ -4982,23 +4982,19 @@ class Entity(object, metaclass=EntityMeta):
             new_vals = {attr: attr.converters[0].dbval2val(dbval, obj) if not attr.reverse else dbval
                               for attr, dbval in avdict.items()}
 
+        # The checks that can refuse the new values come first: an error raised halfway would leave the object
+        # with database values but without values (unreadable for the rest of the session, while its reverse
+        # sides are already linked)
         for attr, new_val in list(new_vals.items()):
-            new_dbval = new_dbvals[attr]
-            old_dbval = get_dbval(attr, NOT_LOADED)
             bit = obj._bits_except_volatile_[attr]
             if rbits & bit:
+                old_dbval = get_dbval(attr, NOT_LOADED)
                 errormsg = 'Please contact PonyORM developers so they can ' \
                            'reproduce your error and fix a bug: support@ponyorm.org'
                 assert old_dbval is not NOT_LOADED, errormsg
                 throw(UnrepeatableReadError,
                       'Value of %s.%s for %s was updated outside of current transaction (was: %r, now: %r)'
-                      % (obj.__class__.__name__, attr.name, obj, old_dbval, new_dbval))
-
-            if attr.reverse and not (wbits & bit and old_dbval is NOT_LOADED):
-                # a reference that was assigned in this session before it was ever loaded: the in-memory
-                # collections already reflect the assignment, the stored value must not re-link the object
-                attr.db_update_reverse(obj, old_dbval, new_dbval)
-            obj._dbvals_[attr] = new_dbval
+                      % (obj.__class__.__name__, attr.name, obj, old_dbval, new_dbvals[attr]))
             if wbits & bit:
                 del new_vals[attr]
 
@@ -5017,6 +5013,15 @@ class Entity(object, metaclass=EntityMeta):
                 new_key_vals = tuple(key_vals)
                 if prev_key_vals != new_key_vals:
                     cache.db_update_composite_index(obj, attrs, prev_key_vals, new_key_vals)
+
+        for attr, new_dbval in new_dbvals.items():
+            old_dbval = get_dbval(attr, NOT_LOADED)
+            bit = obj._bits_except_volatile_[attr]
+            if attr.reverse and not (wbits & bit and old_dbval is NOT_LOADED):
+                # a reference that was assigned in this session before it was ever loaded: the in-memory
+                # collections already reflect the assignment, the stored value must not re-link the object
+                attr.db_update_reverse(obj, old_dbval, new_dbval)
+            obj._dbvals_[attr] = new_dbval
 
         obj._vals_.update(new_vals)
     def _delete_(obj, undo_funcs=None):
